@@ -1,6 +1,7 @@
 use crate::Monitor;
 pub mod c01;
 pub mod selftest;
+pub mod xbsd;
 pub mod c03;
 pub mod c04;
 pub mod cone;
@@ -38,6 +39,7 @@ pub fn lookup(id: &str) -> Option<Monitor> {
     "C17" => Some(c17::monitor()),
     "C18" => Some(c18::monitor()),
     "C19" => Some(c19::monitor()),
+    "XBSD" => Some(xbsd::monitor()),
     "SELFTEST" => Some(selftest::monitor()),
     _ => None,
   }
